@@ -552,10 +552,6 @@ func checkEmit(prop, tier string, seed int, updateLedger bool) int {
 				if c.Kind != "checksum" {
 					continue
 				}
-			case "C01":
-				if en.Dir != "enc" {
-					continue
-				}
 			}
 			runs = append(runs, e.runEmit(en, c))
 			langs[en.Lang] = true
